@@ -114,6 +114,19 @@ func DefaultProfile(prop string) Profile {
 
 var refreshRates = []int64{1e6, 1e7, 15e7, 1e9, 3600e9}
 
+// genSleep draws a sleep of at most a dozen refresh periods: every elapsed
+// period costs a render cycle of simulation.
+func genSleep(r *Rand, c *h.ContainerSpec) int64 {
+	period := c.RateNS
+	if c.Refresh != h.RefAuto || period == 0 {
+		period = 2e7
+	}
+	if period > 1e9 {
+		period = 1e9
+	}
+	return []int64{1e3, period / 2, 2 * period, 12 * period}[r.Intn(4)]
+}
+
 func genSched(r *Rand, p *Profile) h.SchedSpec {
 	s := h.SchedSpec{}
 	switch r.Weighted(p.StrategyW[:]...) {
@@ -378,7 +391,7 @@ func GenBase(r *Rand, p *Profile) *h.Scenario {
 				b := sc.Initial[r.Intn(len(sc.Initial))]
 				ops = append(ops, h.Op{K: []int{h.OpCurrent, h.OpCompleted, h.OpAborted, h.OpPair, h.OpPairAC, h.OpIsRunning, h.OpID}[r.Intn(7)], Bar: b})
 				if r.Bool(0.4) {
-					ops = append(ops, h.Op{K: h.OpSleep, D: []int64{1e3, 1e6, 2e7, 2e8}[r.Intn(4)]})
+					ops = append(ops, h.Op{K: h.OpSleep, D: genSleep(r, &sc.Cont)})
 				}
 			}
 			sc.Clients = append(sc.Clients, ops)
@@ -387,7 +400,7 @@ func GenBase(r *Rand, p *Profile) *h.Scenario {
 	if len(sc.Initial) > 0 && r.Bool(p.PRacer) {
 		var ops []h.Op
 		if r.Bool(0.5) {
-			ops = append(ops, h.Op{K: h.OpSleep, D: []int64{1e3, 1e6, 2e7}[r.Intn(3)]})
+			ops = append(ops, h.Op{K: h.OpSleep, D: genSleep(r, &sc.Cont)})
 		}
 		b := sc.Initial[r.Intn(len(sc.Initial))]
 		ops = append(ops, h.Op{K: h.OpAbort, Bar: b, Flag: r.Bool(p.PDropOnAbort)})
@@ -410,12 +423,12 @@ func GenBase(r *Rand, p *Profile) *h.Scenario {
 	// main
 	if c.Delay && r.Bool(0.8) {
 		if r.Bool(0.5) {
-			sc.Main = append(sc.Main, h.Op{K: h.OpSleep, D: int64(r.Range(1, 300)) * 1e6})
+			sc.Main = append(sc.Main, h.Op{K: h.OpSleep, D: genSleep(r, c)})
 		}
 		sc.Main = append(sc.Main, h.Op{K: h.OpCloseDelay})
 	}
 	if r.Bool(0.3) {
-		sc.Main = append(sc.Main, h.Op{K: h.OpSleep, D: int64(r.Range(1, 400)) * 1e6})
+		sc.Main = append(sc.Main, h.Op{K: h.OpSleep, D: genSleep(r, c)})
 	}
 	if r.Bool(p.PJoin) {
 		sc.Main = append(sc.Main, h.Op{K: h.OpJoin})
@@ -557,7 +570,7 @@ func genOp(r *Rand, p *Profile, sc *h.Scenario, cand []*barGen, client int, nWri
 		}
 		op = h.Op{K: h.OpWrite, S: s}
 	case 7:
-		op = h.Op{K: h.OpSleep, D: []int64{1e3, 1e6, 2e7, 2e8}[r.Intn(4)]}
+		op = h.Op{K: h.OpSleep, D: genSleep(r, &sc.Cont)}
 	case 8:
 		op = h.Op{K: h.OpRefresh, Flag: r.Bool(0.3)}
 	case 9:
